@@ -350,3 +350,39 @@ func Harness_C07_WebsocketCloseWithBlockedWriter() {
 	vAssert("no-goroutine-left", vGoroutinesSinceMark() <= 0)
 	vCover("ws-blocked-writer-close-done")
 }
+
+// the websocket flavour of Harness_C06_RawsocketCloseWithUnreadMessage
+func Harness_C06_WebsocketCloseWithUnreadMessage() {
+	ser := &vSer{failDeser: map[int]bool{}}
+	n := 1 + vChoice("frames-nobody-reads", 2)
+	var script []vWSStep
+	for k := 0; k < n; k++ {
+		script = append(script, vWSStep{kind: 0, typ: 2})
+	}
+	conn := vNewWSConn(script, true)
+	keep := time.Duration(0)
+	if vBool("keepalive-variant") {
+		keep = time.Hour
+	}
+	vGoroutineMark()
+	p := NewWebsocketPeer(conn, ser, 2, vNopLog{}, keep, 4)
+	vQuiesce()
+	vAssert("first-message-deserialized-and-waiting", len(ser.payloads) == 1)
+	done := make(chan struct{})
+	go func() {
+		p.Close()
+		close(done)
+	}()
+	vQuiesce()
+	vAdvance(int64(10 * time.Second))
+	vQuiesce()
+	select {
+	case <-done:
+	default:
+		vAssert("close-returns", false)
+		return
+	}
+	vAssert("connection-closed", conn.closed)
+	vAssert("reader-goroutine-gone", vGoroutinesSinceMark() <= 0)
+	vCover("ws-unread-message-close-done")
+}
